@@ -13,6 +13,7 @@ import (
 
 // Env is the environment in which a contract expression is evaluated.
 type Env struct {
+	loopNext string // allocation counter when the current loop was entered (loop invariants only)
 	vc    *VC
 	names map[string]*SV
 	lets  map[string]Expr
@@ -608,7 +609,13 @@ func (env *Env) evalCall(e CallE) *SV {
 		return ghostRef(x.C[1])
 	case "base":
 		need(1)
-		return ghostRef(arg(0).C[0])
+		x := arg(0)
+		if x.T != nil {
+			if _, isI := x.T.Underlying().(*types.Interface); isI {
+				return ghostRef(x.C[1]) // the object an interface value points to
+			}
+		}
+		return ghostRef(x.C[0])
 	case "off":
 		need(1)
 		return ghostBV(64, true, arg(0).C[1])
@@ -739,6 +746,14 @@ func (env *Env) evalCall(e CallE) *SV {
 			return ghostBool(fmt.Sprintf("(forall ((%s %s)) %s)", q, qs, implies(rng, body)))
 		}
 		return ghostBool(fmt.Sprintf("(exists ((%s %s)) %s)", q, qs, and(rng, body)))
+	case "lfresh":
+		// loop invariants: the object was allocated since the loop was entered
+		need(1)
+		if env.loopNext == "" {
+			env.fail("lfresh() is only meaningful in loop invariants")
+		}
+		r := arg(0).C[0]
+		return ghostBool(and(app("bvuge", r, env.loopNext), app("bvult", r, env.st.H["next"])))
 	case "fresh":
 		// the object was allocated after the old state
 		need(1)
